@@ -96,7 +96,7 @@ def check_default_results(ctx, fx):
                                   "path where it was never assigned: its has_value() is true although nothing was parsed, so \"no "
                                   "base URL\" is treated as \"an empty base URL\"" % nd["name"],
                                   where=(st.get("loc") or st.get("cond_loc") or "").replace("/repo/", ""))
-    ctx.floor("M5", n, 4, "reads of default-constructed result<T> locals")
+    ctx.floor("M5", n, 2, "reads of default-constructed result<T> locals")
 
 
 def check_special_scheme_twins(ctx, fx, rule="M6"):
@@ -383,6 +383,36 @@ def mode_table(f, test):
     return acc, fallback
 
 
+
+def _plain(t):
+    """drop the implicit std::string -> string_view conversions from an operand's text"""
+    import re
+    t = t.replace(".operator basic_string_view()", "")
+    t = re.sub(r"(?:std::)?basic_string_view<char(?:, std::char_traits<char>)?>\{([^{}]*)\}", r"\1", t)
+    return t.strip()
+
+
+def canon(e, positive=True):
+    # `!(!x)` = x, `!(a != b)` = `a == b`: the acceptance condition does not depend on which branch is written first
+    e = X.strip(e)
+    while isinstance(e, dict) and e.get("k") == "un" and e.get("op") == "!":
+        positive = not positive
+        e = X.strip(e["e"])
+    if isinstance(e, dict) and e.get("k") == "bin" and e.get("op") in ("==", "!="):
+        op = e["op"] if positive else {"==": "!=", "!=": "=="}[e["op"]]
+        a, b_ = sorted([_plain(X.show(X.strip(e["l"]))), _plain(X.show(X.strip(e["r"])))])
+        if op == "==":
+            return "(%s == %s)" % (a, b_)
+        return "!(%s == %s)" % (a, b_)
+    if isinstance(e, dict) and e.get("k") == "call" and e.get("name") in ("operator==", "operator!="):
+        sides = ([e["recv"]] if e.get("recv") is not None else []) + list(e.get("args", []))
+        if len(sides) == 2:
+            eq = (e["name"] == "operator==") == positive
+            a, b_ = sorted(_plain(X.show(X.strip(x))) for x in sides)
+            return ("(%s == %s)" if eq else "!(%s == %s)") % (a, b_)
+    return ("" if positive else "!") + _plain(X.show(e))
+
+
 def region_condition(blocks, bid, test):
     """Condition (as text) under which the region starting at block bid yields 'accept'."""
     b = blocks[bid]
@@ -396,7 +426,7 @@ def region_condition(blocks, bid, test):
     if rets and c is None:
         e = rets[0].get("e")
         if test:
-            return X.show(X.strip(e))
+            return canon(e)
         return "false" if "nullopt" in X.show(e) else "true"
     if c is not None and len(b["succ"]) == 2:
         tb = blocks[[s["to"] for s in b["succ"] if s["when"] == "true"][0]]
@@ -411,11 +441,11 @@ def region_condition(blocks, bid, test):
                 return t
             return "false" if "nullopt" in t else "true"
         tv, fv = val(tb), val(fb)
-        ctext = X.show(X.strip(c))
+
         if tv == "true" and fv == "false":
-            return ctext
+            return canon(c, True)
         if tv == "false" and fv == "true":
-            return "!" + ctext
+            return canon(c, False)
         if tv == "true" and fv == "true":
             return "true"
     raise AnalysisBroken("C14.M2: unrecognised shape of a component-type branch (block %s)" % bid)
